@@ -14,6 +14,7 @@ not library code, and is skipped) is scanned for
   raw         from_raw( from_raw_parts( from_raw_parts_mut( CStr::from_ptr( from_utf8_unchecked( unwrap_unchecked(
   slice-op    clone_from_slice( copy_from_slice( split_at( split_off( .drain( swap_remove( .remove(<index-like>)
   refcell     .borrow_mut()
+  ext-panic   methods of external crates documented to panic on some values: chrono's to_rfc2822( timestamp_nanos( to_rfc3339_opts(
 
 (`as` narrowing, `+`/`*` overflow — wrapping in release builds — and unsafe dereferences are not panics
 and are not listed; the dereferences belong to C18.)  Each site is keyed by
@@ -208,6 +209,8 @@ def enclosing(fns, pos):
 MACROS = r"\b(panic|unreachable|unimplemented|todo|assert|assert_eq|assert_ne|debug_assert|debug_assert_eq|debug_assert_ne)!"
 RAW = r"\b(from_raw_parts_mut|from_raw_parts|from_raw|from_ptr|from_utf8_unchecked|unwrap_unchecked)\s*\("
 SLICE_OPS = r"\b(clone_from_slice|copy_from_slice|split_at|split_at_mut|split_off|swap_remove|copy_within)\s*\(|\.drain\s*\("
+# methods of external crates that are documented to panic on some values (chrono: year outside 0..=9999, nanosecond overflow)
+EXT = r"\.\s*(to_rfc2822|timestamp_nanos|to_rfc3339_opts)\s*\("
 NUM = r"(?:\d[\d_]*(?:\.\d+)?(?:[iuf]\d+|usize|isize)?|b?'[^']*')"
 
 
@@ -306,6 +309,8 @@ def scan_file(rel, src):
         add("slice-op", m.start(), operand_left(code, m.start()) + m.group(0))
     for m in re.finditer(r"\.\s*insert\s*\(\s*(" + NUM + r"|i|idx|index|pos|position|[a-z_]*_index|[a-z_]*_pos)\s*,", code):
         add("slice-op", m.start(), operand_left(code, m.start()) + m.group(0) + " ..)")
+    for m in re.finditer(EXT, code):
+        add("ext-panic", m.start(), operand_left(code, m.start()) + m.group(0) + ")")
     for m in re.finditer(r"\.\s*borrow_mut\s*\(\s*\)", code):
         add("refcell", m.start(), operand_left(code, m.start()) + m.group(0))
     # indexing / slicing: `[` directly after an identifier char, `)`, `]` or `?`
